@@ -22,7 +22,16 @@ def _haploid_last_sample_phased(rec):
     return d.get("class") == "haploid_last_sample_phased"
 
 
+def _chunk_over_blosc_limit(rec):
+    """conversion refused although the input is well-formed: an array's UNCLIPPED zarr chunk (variants chunk size x samples chunk
+    size x inner width x item size, default sizes 10 000 x 1000) exceeds the codec's 2^31 - 1 byte limit; the driver sets the class
+    only after recomputing that size from the generated schema and seeing the codec's / validate()'s own error message"""
+    d = rec.get("detail") or {}
+    return d.get("class") == "chunk_over_blosc_limit"
+
+
 PREDICATES = {
+    "chunk_over_blosc_limit": _chunk_over_blosc_limit,
     "haploid_lpl_fill": _haploid_lpl_fill,
     "haploid_last_sample_phased": _haploid_last_sample_phased,
 }
